@@ -218,10 +218,10 @@ def main(argv=None):
         tasks = mod.tasks(tier)
         if tier == "thorough":
             # deeper exploration: every seed-dependent task is repeated under further derived seeds (the task name feeds the seed derivation);
-            # tasks whose name matches the module's DETERMINISTIC pattern enumerate a fixed domain and run once
+            # tasks whose function is listed in the module's DETERMINISTIC_FNS enumerate a fixed domain and run once
             reps = int(os.environ.get("VPCHK_THOROUGH_REPS", getattr(mod, "THOROUGH_REPS", 1)))
-            det = re.compile(getattr(mod, "DETERMINISTIC", r"$^"))
-            tasks = tasks + [dict(t, name=f"{t['name']}#r{r}") for r in range(1, reps) for t in tasks if not det.search(t["name"])]
+            det = set(getattr(mod, "DETERMINISTIC_FNS", ()))
+            tasks = tasks + [dict(t, name=f"{t['name']}#r{r}") for r in range(1, reps) for t in tasks if t["fn"] not in det]
     except HarnessError as e:
         print(f"HARNESS-ERROR property={prop} {e}")
         return 2
